@@ -1,102 +1,78 @@
 #!/venv/bin/python
-"""Run every translator on /repo's current source (used by setup.sh; each check
-also regenerates what it needs)."""
-import os, sys
+"""Run every translator on /repo's current source (used by setup.sh; each check also regenerates what it
+needs).  Never fails: when a translator rejects the source, the committed reference copy coq/ref/<file> is
+put in place so that the development stays buildable; the check of the property concerned notices the
+rejection itself (harness/common.py, tie_fallback) and enlarges its correspondence."""
+import importlib
+import os
+import shutil
+import sys
+
 ROOT = os.path.dirname(os.path.dirname(os.path.abspath(__file__)))
 sys.path.insert(0, os.path.join(ROOT, "gen"))
 sys.path.insert(0, ROOT)
-from harness import common as C
-import importlib
-for name, src, out in [("scales", "scales.py", "Scales.v")]:
-    mod = importlib.import_module(name)
-    mod.main(os.path.join(C.SRC, src), os.path.join(C.COQ, "gen", out))
-    print("generated", out)
-# C11: util.py + config.py -> ReadSignal.v
-import readsig  # noqa: E402
-readsig.main(os.path.join(C.SRC, "util.py"), os.path.join(C.SRC, "config.py"), os.path.join(C.COQ, "gen", "ReadSignal.v"))
-print("generated", "ReadSignal.v")
-# C15: post.py (Deltas / Stack integer bookkeeping) -> PostC15.v
-import post_c15  # noqa: E402
-post_c15.main(os.path.join(C.SRC, "post.py"), os.path.join(C.COQ, "gen", "PostC15.v"))
-print("generated", "PostC15.v")
-# C10: command_line.py (shape of signals_to_torch_feat_dir) -> C10Tool.v
-import c10tool  # noqa: E402
-c10tool.main(os.path.join(C.SRC, "command_line.py"), os.path.join(C.COQ, "gen", "C10Tool.v"))
-print("generated", "C10Tool.v")
-# C13: _sphere.py (shorten constants, command sets, initial means, mu-law tables) -> Shorten.v
-import shorten  # noqa: E402
-shorten.main(os.path.join(C.SRC, "_sphere.py"), os.path.join(C.COQ, "gen", "Shorten.v"))
-print("generated", "Shorten.v")
-# C12: _sphere.py (G.711 tables, header constants / key dispatch / guards, in_type chain) -> Sphere.v
-import sphere  # noqa: E402
-sphere.main(os.path.join(C.SRC, "_sphere.py"), os.path.join(C.COQ, "gen", "Sphere.v"))
-print("generated", "Sphere.v")
-# C20: filters.py (window classes) + util.py (gauss_quant, Hz<->rad, circshift_fourier) -> WinHelp.v
-import winhelp  # noqa: E402
-winhelp.main(C.SRC, os.path.join(C.COQ, "gen", "WinHelp.v"))
-print("generated", "WinHelp.v")
-# C18: pre.py (Dither.apply, Preemphasize.apply) + torch.py (functional forms) -> Pre.v
-import pre as pre_c18  # noqa: E402
-pre_c18.main(os.path.join(C.SRC, "pre.py"), os.path.join(C.SRC, "torch.py"), os.path.join(C.COQ, "gen", "Pre.v"))
-print("generated", "Pre.v")
-# C17: post.py (Standardize.save / __init__ / _sanitize_stats) + util.py (read_signal dispatch, numpy readers) -> StatsIO.v
-import stats_io  # noqa: E402
-stats_io.main(C.SRC, os.path.join(C.COQ, "gen", "StatsIO.v"))
-print("generated", "StatsIO.v")
-# C16: post.py (Standardize accumulate / apply scalar kernels) -> StandardizeK.v
-import standardize as standardize_c16  # noqa: E402
-try:
-    standardize_c16.main(os.path.join(C.SRC, "post.py"), os.path.join(C.COQ, "gen", "StandardizeK.v"))
-    print("generated", "StandardizeK.v")
-except Exception as e:  # the check itself reports the broken tie; keep the development buildable
-    standardize_c16.main(None, os.path.join(C.COQ, "gen", "StandardizeK.v"), fallback=True)
-    print("StandardizeK.v: translator failed (%s); reference kernels written" % e)
-# C08: all modules (class tree, aliases, constructor parameters, nested alias calls) -> C08_Registry.v
-import registry as registry_c08  # noqa: E402
-registry_c08.main(C.SRC, os.path.join(C.COQ, "gen", "C08_Registry.v"))
-print("generated", "C08_Registry.v")
-# C09: command_line.py (kaldi tool seeding/loop/exit status, data set __getitem__, map file loop, manifest key,
-# seed choice) + compute.py / torch.py (STFT framing arithmetic) -> CmdLine.v
-import cmdline as cmdline_c09  # noqa: E402
-try:
-    cmdline_c09.main(C.SRC, os.path.join(C.COQ, "gen", "CmdLine.v"))
-    print("generated", "CmdLine.v")
-except Exception as e:  # ./check C09 reports the broken tie itself; do not stop the other translators
-    print("CmdLine.v: translator failed (%s: %s); file left as it was" % (type(e).__name__, e))
-# C07: filters.py (flags, supports, impulse/frequency response formulas, gammatone support search) + config.py + util.py -> C07Filters.v
-import c07_filters  # noqa: E402
-try:
-    c07_filters.main(os.path.join(C.SRC, "filters.py"), os.path.join(C.SRC, "config.py"), os.path.join(C.COQ, "gen", "C07Filters.v"))
-    print("generated", "C07Filters.v")
-except Exception as e:  # ./check C07 reports the broken tie itself; do not stop the other translators
-    print("C07Filters.v: translator failed (%s: %s); file left as it was" % (type(e).__name__, e))
-# C06: filters.py (index arithmetic of get_frequency_response / get_truncated_response of the four banks) -> C06Index.v
-import filters_c06  # noqa: E402
-try:
-    filters_c06.main(os.path.join(C.SRC, "filters.py"), os.path.join(C.COQ, "gen", "C06Index.v"))
-    print("generated", "C06Index.v")
-except Exception as e:  # ./check C06 reports the broken tie itself; do not stop the other translators
-    print("C06Index.v: translator failed (%s: %s); file left as it was" % (type(e).__name__, e))
-# C01/C02/C04/C14: compute.py + torch.py (STFT integer bookkeeping) -> StftK.v
-import stft as gen_stft  # noqa: E402
-gen_stft.main(C.SRC, os.path.join(C.COQ, "gen", "StftK.v"))
-print("generated", "StftK.v")
-# C02/C14: compute.py + torch.py (energy block, per-filter post-processing, log floor, DFT size) -> StftR.v
-import stft_scalar  # noqa: E402
-try:
-    stft_scalar.main(C.SRC, os.path.join(C.COQ, "gen", "StftR.v"))
-    print("generated", "StftR.v")
-except Exception as e:  # ./check C02 / C14 report the broken tie themselves
-    print("StftR.v: translator failed (%s: %s); file left as it was" % (type(e).__name__, e))
-# C03 (+ SI halves of C01/C04): compute.py (short-integration integer bookkeeping) -> SiK.v
-import si as gen_si  # noqa: E402
-gen_si.main(C.SRC, os.path.join(C.COQ, "gen", "SiK.v"))
-print("generated", "SiK.v")
-# C05: filters.py (range tests, vertices / edges, Gabor sigma, gammatone alpha / c, supports, per-bin values)
-# + util.py (Hz<->rad) + config.py (support threshold) -> Banks.v
-import banks as banks_c05  # noqa: E402
-try:
-    banks_c05.main(C.SRC, os.path.join(C.COQ, "gen", "Banks.v"))
-    print("generated", "Banks.v")
-except Exception as e:  # ./check C05 reports the broken tie itself; do not stop the other translators
-    print("Banks.v: translator failed (%s: %s); file left as it was" % (type(e).__name__, e))
+from harness import common as C  # noqa: E402
+
+S = C.SRC
+G = os.path.join(C.COQ, "gen")
+os.makedirs(G, exist_ok=True)
+
+
+def j(*a):
+    return os.path.join(*a)
+
+
+# (output file, translator module, arguments of its main() before the output path, arguments after)
+TRANSLATORS = [
+    ("Scales.v", "scales", [j(S, "scales.py")]),                       # C19, C05, C06, C07
+    ("ReadSignal.v", "readsig", [j(S, "util.py"), j(S, "config.py")]),  # C11
+    ("PostC15.v", "post_c15", [j(S, "post.py")]),                      # C15
+    ("C10Tool.v", "c10tool", [j(S, "command_line.py")]),               # C10
+    ("Shorten.v", "shorten", [j(S, "_sphere.py")]),                    # C13
+    ("Sphere.v", "sphere", [j(S, "_sphere.py")]),                      # C12
+    ("WinHelp.v", "winhelp", [S]),                                     # C20
+    ("Pre.v", "pre", [j(S, "pre.py"), j(S, "torch.py")]),              # C18
+    ("StatsIO.v", "stats_io", [S]),                                    # C17
+    ("StandardizeK.v", "standardize", [j(S, "post.py")]),              # C16
+    ("C08_Registry.v", "registry", [S]),                               # C08
+    ("CmdLine.v", "cmdline", [S]),                                     # C09
+    ("C07Filters.v", "c07_filters", [j(S, "filters.py"), j(S, "config.py")]),  # C07
+    ("C06Index.v", "filters_c06", [j(S, "filters.py")]),               # C06
+    ("StftK.v", "stft", [S]),                                          # C01, C02, C04, C14
+    ("StftR.v", "stft_scalar", [S]),                                   # C02, C14
+    ("SiK.v", "si", [S]),                                              # C03, C01, C04
+    ("Banks.v", "banks", [S]),                                         # C05
+]
+
+
+def main():
+    failed = []
+    for out, modname, args in TRANSLATORS:
+        dst = j(G, out)
+        try:
+            mod = importlib.import_module(modname)
+            mod.main(*(args + [dst]))
+            print("generated", out)
+        except BaseException as e:  # noqa: BLE001 - a translator must never stop the build
+            if isinstance(e, KeyboardInterrupt):
+                raise
+            ref = j(C.REF, out)
+            if modname == "standardize":
+                try:
+                    mod.main(None, dst, fallback=True)
+                    print("%s: translator failed (%s); reference kernels written" % (out, e))
+                    continue
+                except Exception:  # noqa: BLE001
+                    pass
+            if os.path.exists(ref):
+                shutil.copy(ref, dst)
+                print("%s: translator failed (%s: %s); reference copy coq/ref/%s put in place" % (out, type(e).__name__, str(e)[:200], out))
+            else:
+                print("%s: translator failed (%s: %s); no reference copy, file left as it was" % (out, type(e).__name__, str(e)[:200]))
+            failed.append(out)
+    return failed
+
+
+if __name__ == "__main__":
+    main()
+    sys.exit(0)
